@@ -175,6 +175,14 @@ def _fold(c):
     return c + 32 if 0x41 <= c <= 0x5a else c
 
 
+class Budget(Exception):
+    """the priority reference (plain backtracking, like the engine) used more steps than allowed on this input: the case is
+    set aside as inconclusive by the harness, never judged"""
+
+
+PRIO_BUDGET = 400000
+
+
 class Ctx:
     def __init__(self, line, icase=False, notbol=False, noteol=False):
         """line: str including its terminating newline"""
@@ -185,6 +193,7 @@ class Ctx:
         for ch in line:
             self.boff.append(self.boff[-1] + len(ch.encode("utf-8")))
         self.memo = {}
+        self.steps = 0
         self.nullloop = False       # a loop body matched the empty string (engine recursion goes to the depth limit)
 
     # --- atoms: return next position or -1
@@ -346,6 +355,9 @@ class Ctx:
         if n is None:
             yield i, caps
             return
+        self.steps += 1
+        if self.steps > PRIO_BUDGET:
+            raise Budget()
         k = n.k
         if k in ("lit", "any", "brk", "bol", "eol", "wb", "we"):
             j = self.atom(n, i)
@@ -417,11 +429,107 @@ class Ctx:
         yield i, caps
 
 
+class _Depth:
+    """The engine's search replayed fork by fork, to learn how deeply it has to nest: re_rec() recurses for the first branch of
+    every fork (alternative but the last, every iteration of * + {m,}, every optional copy of ? {m,n}) and keeps that level until
+    the whole rest of the pattern has matched, so the depth of a path is the number of first branches taken along it."""
+
+    def __init__(self, ctx):
+        self.c = ctx
+        self.maxdep = 0
+        self.steps = 0
+        self.nullloop = False
+
+    def dp(self, n, i, d):
+        if n is None:
+            yield i, d
+            return
+        self.steps += 1
+        if self.steps > PRIO_BUDGET:
+            raise Budget()
+        if d > self.maxdep:
+            self.maxdep = d
+        k = n.k
+        if k in ("lit", "any", "brk", "bol", "eol", "wb", "we"):
+            j = self.c.atom(n, i)
+            if j >= 0:
+                yield j, d
+        elif k == "grp":
+            yield from self.dp(n.a, i, d)
+        elif k == "cat":
+            yield from self.cat(n.a, 0, i, d)
+        elif k == "alt":
+            last = len(n.a) - 1
+            for idx, x in enumerate(n.a):
+                yield from self.dp(x, i, d + (1 if idx < last else 0))
+        elif k == "rep":
+            lo, hi = n.b, n.c
+            if lo == 0 and hi == 0:
+                yield i, d
+            elif hi == -1:
+                if lo == 0:
+                    yield from self.loop(n.a, i, d + 1)
+                    yield i, d
+                else:
+                    yield from self.times(n.a, lo, i, d, lambda j, dd: self.more(n.a, j, dd))
+            elif lo == 0:
+                yield from self.opt(n.a, hi, i, d)
+            else:
+                yield from self.times(n.a, lo, i, d, lambda j, dd: self.opt(n.a, hi - lo, j, dd))
+
+    def cat(self, xs, idx, i, d):
+        if idx == len(xs):
+            yield i, d
+            return
+        for j, d2 in self.dp(xs[idx], i, d):
+            yield from self.cat(xs, idx + 1, j, d2)
+
+    def times(self, x, cnt, i, d, then):
+        if cnt == 0:
+            yield from then(i, d)
+            return
+        for j, d2 in self.dp(x, i, d):
+            yield from self.times(x, cnt - 1, j, d2, then)
+
+    def more(self, x, i, d):
+        yield from self.loop(x, i, d + 1)
+        yield i, d
+
+    def loop(self, x, i, d):
+        for j, d2 in self.dp(x, i, d):
+            if j == i:
+                self.nullloop = True        # an empty iteration: the engine loops in place down to its depth limit
+                yield j, d2
+                continue
+            yield from self.loop(x, j, d2 + 1)
+            yield j, d2
+
+    def opt(self, x, cnt, i, d):
+        if cnt == 0:
+            yield i, d
+            return
+        for j, d2 in self.dp(x, i, d + 1):
+            yield from self.opt(x, cnt - 1, j, d2)
+        yield i, d
+
+
+def max_fork_depth(root, ctx):
+    """deepest nesting of first-branch forks the engine's search reaches on this line before it stops (first match or end of line);
+    None when a loop body can match the empty string (the engine then recurses to its limit whatever the line)"""
+    dm = _Depth(ctx)
+    for s in range(0, ctx.n + 1 if ctx.n else 0):
+        for _e, _d in dm.dp(root, s, 0):
+            return None if dm.nullloop else dm.maxdep
+    return None if dm.nullloop else dm.maxdep
+
+
 def search_prio(root, ctx, start=0, line_mode=False):
     """first match in the engine's order: leftmost start (>= start), then backtracking priority.
     returns (start, end, caps) or None.  line_mode: ctx holds a line without its terminator and every
     position 0..n is a candidate start (editor-level reference)."""
     for s in range(start, ctx.n + 1 if (ctx.n or line_mode) else 0):     # regexec() also tries the position of the terminating NUL of a non-empty string
+        if not ctx.ends(root, s):
+            continue        # no parse at all from here (memoised set semantics, polynomial): do not backtrack through the failures
         for e, caps in ctx.prio(root, s, {}):
             return s, e, caps
     return None
